@@ -428,28 +428,41 @@ func (a *admin) intruder() {
 		return
 	}
 	served := ni.r != nil && ni.mainG != nil // the first instance has at least reached Serve's lock
+	// a refused attempt is often followed by another one (an operator retrying)
+	for attempt := 0; attempt < 3; attempt++ {
+		if !a.intrude(ni, served) || !t.Chance(rt.StPlan, 1, 2) {
+			return
+		}
+	}
+}
+
+// intrude makes one attempt; it reports whether the attempt was refused in the expected way.
+func (a *admin) intrude(ni *nodeInc, served bool) bool {
+	run := a.run
 	fsm := &recFSM{inc: &nodeInc{run: run, node: ni.node, dead: true}}
 	r2, err := New(run.simOptions(), fsm, ni.dir)
 	if err != nil {
 		run.led.onIntruder(ni, served, "new", err)
-		return
+		return false
 	}
 	lst, lerr := run.net.Listen(nil, fmt.Sprintf("x%d:7000", run.sim.Steps))
 	if lerr != nil {
-		return
+		return false
 	}
 	done := false
 	var serr error
 	q := &rt.WaitQ{}
 	inc2 := &rt.NodeCtx{ID: 200 + int(ni.node.id), ClockPPM: ni.nc.ClockPPM, User: fsm.inc} // a process of its own
+	ni.intruder = r2
+	defer func() { ni.intruder = nil }()
 	run.sim.Spawn("intruder-serve", inc2, func() {
 		serr = r2.Serve(lst)
 		done = true
 		q.Wake()
 	})
 	deadline := time.Now().Add(4 * run.cfg.HB)
-	for !done && time.Now().Before(deadline) {
-		time.Sleep(run.cfg.HB / 4)
+	for !done && time.Now().Before(deadline) && r2.ldr == nil && !run.stop {
+		time.Sleep(run.cfg.HB / 8)
 	}
 	if !done {
 		if r2.ldr != nil {
@@ -457,11 +470,12 @@ func (a *admin) intruder() {
 			run.led.onIntruder(ni, served, "serving", nil)
 		}
 		_ = r2.Shutdown(context.Background())
-		return
+		return false
 	}
 	_ = lst.Close()
 	run.led.onIntruder(ni, served, "serve", serr)
 	_ = r2.storage.log.Close()
+	return serr == ErrLockExists
 }
 
 // monitor polls every node's status report through the task API (C19).
